@@ -23,7 +23,7 @@ def _stage(lst, a, b, c):
     inr = all(v is None or -w <= v <= w for v in (a, b))
     if not inr:
         return r, "may"
-    return r, ("must_accept" if c in (None, 1) else "may")
+    return r, "must_accept"  # in-range bounds, at least one bit selected: "selects exactly the bits ... Python selects", whatever the step
 
 
 def _istage(lst, i):
